@@ -22,3 +22,28 @@ Definition py_prog : prog := [
   (* 15 *) IRelease 16;   (* (leave with, KeyError) *)
   (* 16 *) IRaise KeyErr   (* (propagate) *)
 ].
+
+Definition c_prog_gen : prog := [
+  (*  0 *) IRead 2 1;
+  (*  1 *) ISetDefault 2;
+  (*  2 *) IIfDone 3 4;
+  (*  3 *) IRetX;
+  (*  4 *) IAcquire 5;
+  (*  5 *) IRead 6 9;
+  (*  6 *) IIfDone 7 9;
+  (*  7 *) IRelease 8;
+  (*  8 *) IRetX;
+  (*  9 *) ICallF 10 13;
+  (* 10 *) IStore 11;
+  (* 11 *) IRelease 12;
+  (* 12 *) IRetResult;
+  (* 13 *) IRelease 14;
+  (* 14 *) IRaise FExn
+].
+
+Definition gen_py_cache_init_empty : bool := true.
+Definition gen_py_cache_assigned_once : bool := true.
+Definition gen_py_lock_is_thread_lock : bool := true.
+Definition gen_c_cache_init_empty : bool := true.
+Definition gen_c_lock_is_thread_lock : bool := true.
+Definition gen_c_no_return_while_locked : bool := true.
